@@ -338,6 +338,93 @@ void add_s6(mc::Runner &R, const std::string &name, int W, int H, bool quick, bo
   R.add(s);
 }
 
+// ------------------------------------------------------------------ S7: attribute order, unique ids, two attributes of one type
+void add_s7(mc::Runner &R, const std::string &name, bool quick, bool thorough) {
+  // attribute pool
+  struct A { GeometryAttribute::Type type; DataType dt; int nc; int q; };
+  static const A pool[6] = {{GeometryAttribute::POSITION, DT_FLOAT32, 3, 11}, {GeometryAttribute::NORMAL, DT_FLOAT32, 3, 8},
+                            {GeometryAttribute::TEX_COORD, DT_FLOAT32, 2, 10}, {GeometryAttribute::GENERIC, DT_INT16, 2, 0},
+                            {GeometryAttribute::COLOR, DT_UINT8, 4, 0},        {GeometryAttribute::TEX_COORD, DT_FLOAT32, 2, 12}};
+  static const int sets[3][4] = {{0, 1, 2, 3}, {0, 2, 5, 4}, {0, 1, 3, 4}};
+  // (set 3) x (order 24) x (uid scheme 3) x (geometry/method 7: mesh seq s10, eb std s0, eb std s5, eb valence s3, eb std s7; cloud seq, cloud kd)
+  mc::Radix rx{7, 3, 24, 3};
+  auto make = [=](uint64_t idx, GeomDef *g, EncCfg *c) {
+    auto d = rx.decode(idx);
+    int perm[4] = {0, 1, 2, 3};
+    {
+      // d[2]-th permutation
+      int k = (int)d[2];
+      std::vector<int> items = {0, 1, 2, 3};
+      for (int i = 0; i < 4; ++i) {
+        const int f = k % (4 - i);
+        k /= (4 - i);
+        perm[i] = items[f];
+        items.erase(items.begin() + f);
+      }
+    }
+    const bool cloud = d[0] >= 5;
+    g->is_mesh = !cloud;
+    g->num_points = 4;
+    if (!cloud) g->faces = {{0, 1, 2}, {2, 1, 3}};
+    c->qbits.clear();
+    for (int i = 0; i < 4; ++i) {
+      const A &a = pool[sets[d[3]][perm[i]]];
+      AttDef ad;
+      ad.type = a.type;
+      ad.dt = a.dt;
+      ad.nc = a.nc;
+      ad.uid = d[1] == 0 ? (uint32_t)i : d[1] == 1 ? (uint32_t)(3 - i) : (uint32_t)(i == 0 ? 70000 : i == 1 ? 5 : i == 2 ? 300 : 1);
+      for (int v = 0; v < 4; ++v) {
+        const int salt = sets[d[3]][perm[i]];
+        if (a.dt == DT_FLOAT32) {
+          std::vector<float> f(a.nc);
+          for (int k2 = 0; k2 < a.nc; ++k2) f[k2] = a.type == GeometryAttribute::NORMAL ? (k2 == v % 3 ? 1.f : 0.f) : 0.25f * ((v * 3 + k2 * 5 + salt) % 7);
+          if (a.type == GeometryAttribute::POSITION) {
+            float p[3];
+            gs::id_position(v, p);
+            f = {p[0], p[1], p[2]};
+          }
+          ad.entries.push_back(bytes_of(f));
+        } else if (a.dt == DT_INT16) {
+          ad.entries.push_back(bytes_of(std::vector<int16_t>{(int16_t)(v * 100 - 150), (int16_t)(salt + v)}));
+        } else {
+          ad.entries.push_back(bytes_of(std::vector<uint8_t>{(uint8_t)(v * 60), 255, (uint8_t)salt, (uint8_t)(v + 1)}));
+        }
+      }
+      g->atts.push_back(ad);
+      c->qbits.push_back(a.q);
+    }
+    static const int mk[5] = {0, 2, 2, 3, 2}, sp[5] = {10, 0, 5, 3, 7};
+    if (!cloud) *c = [&] { EncCfg t = gs::mesh_cfg(mk[d[0]], sp[d[0]]); t.qbits = c->qbits; return t; }();
+    else {
+      c->method = (int)d[0] - 5;
+      c->speed_enc = c->speed_dec = 4;
+    }
+  };
+  mc::Space s;
+  s.name = name;
+  s.size = rx.size();
+  s.quick = quick;
+  s.thorough = thorough;
+  s.run = [=](uint64_t idx, mc::Ctx &ctx) {
+    GeomDef g;
+    EncCfg c;
+    make(idx, &g, &c);
+    auto r = rt::check_roundtrip(g, c, ctx, "", !g_c09, g_c09);
+    if (r.decoded) {
+      ctx.count("cases_with_permuted_attribute_layout");
+      ctx.nontrivial_unique();
+    }
+  };
+  s.describe = [=](uint64_t idx) {
+    GeomDef g;
+    EncCfg c;
+    make(idx, &g, &c);
+    return text(g) + " " + text(c);
+  };
+  R.add(s);
+}
+
 // ------------------------------------------------------------------ S3
 // Attribute layouts: a second attribute of every type/data type/component
 // count on 4 fixed topologies, per-vertex or per-corner, with forced
@@ -910,6 +997,7 @@ int main(int argc, char **argv) {
     if (asan) {
       add_s3(R, "asan_S3_quick", q, true, true, false, true);
       add_s3(R, "asan_S3", t, false, true, true);
+      add_s7(R, "asan_S7_attribute_order_and_ids", true, true);
       add_s4(R, "asan_S4_N3", 3, {0, 4, 10}, true, false);
       add_s4(R, "asan_S4_N4", 4, {0, 1, 2, 3, 4, 5, 6, 7, 8, 9, 10}, false, true);
       add_s5(R, "asan_S5", false, true, false);
